@@ -404,3 +404,28 @@ def check_placement(ctx, tu, info, rule):
             ctx.ob(rule, f, 'set() constructs the payload before it publishes the destructor pointer', ok,
                    detail='if the payload constructor throws after `dtor` was set, the slot destructor destroys a payload that was never built',
                    key_detail='placement before dtor')
+        # AnyData: the destructor frees the payload whenever `functions` is set. The payload is built in the constructor body after
+        # `functions` was initialised - harmless only because a constructor that throws does not run its own destructor. That stops being
+        # true once the constructor delegates: after the target constructor returned the object counts as constructed, and a throwing
+        # payload constructor runs ~AnyData on a buffer that holds no object.
+        if f.cls == 'AnyData' and f.kind == 'ctor':
+            news = [n for n, o in f.nodes.items() if o['cls'] == 'CXXNewExpr' and o.get('placement')]
+            faulty = [n for n in f.calls() if (f.callee(n) or {}).get('name') == 'moveConstruct'] + news
+            if not faulty:
+                continue
+            unsafe = False
+            if f.d.get('delegating'):
+                unsafe = True
+                for i in f.d.get('inits', []):
+                    if i.get('kind') == 'delegating' and i.get('n'):
+                        x = f.strip_all_casts(i['n'])
+                        g = tu.by_id.get((f.callee(x) or {}).get('fid', -1)) if f.is_construct(x) else None
+                        if g is not None:
+                            for gi in g.d.get('inits', []):
+                                if gi.get('member') == 'functions' and gi.get('n'):
+                                    y = g.strip_all_casts(gi['n'])
+                                    if g.nodes[y]['cls'] in ('CXXNullPtrLiteralExpr', 'ImplicitValueInitExpr', 'GNUNullExpr') or g.nodes[y].get('value') == 0:
+                                        unsafe = False      # the target leaves the object empty: ~AnyData does nothing
+            ctx.ob(rule, f, 'the payload is not built after a delegated-to constructor already published the function table', not unsafe,
+                   detail='the delegated-to constructor completes the object (functions set); if building the payload at %s then throws, '
+                          '~AnyData destroys a payload that was never built' % f.nloc(faulty[0]), key_detail='payload built after delegation')
